@@ -92,7 +92,8 @@ def cases(tier: str, seed: int) -> list[dict]:
             k += 1
             for theory in ("EB", "Timo"):
                 for bdim in (1, 2, 3):
-                    for orient in (["x", "incl"] if bdim > 1 else ["x"]):
+                    # "minus-x": the member lies exactly on the x-axis and points towards -x (the mesh is then one-dimensional)
+                    for orient in (["x", "incl", "minus-x"] if bdim > 1 else ["x", "minus-x"]):
                         out.append({"kind": "beam", "dim": bdim, "et": et, "theory": theory, "orient": orient, "mesh": "member", "rho": "scalar"})
     for i, c in enumerate(out):
         c["id"] = f"C02-{i:05d}-{c['kind']}-{c['dim']}d-{c['et']}-{c.get('law', c.get('theory', 'k'))}-{c['mesh']}-{c.get('orient', '')}"
@@ -308,6 +309,9 @@ def run_beam(case: dict, ctx: Ctx, rng) -> None:
     p0[:dim] = rng.uniform(-1, 1, dim)
     if orient == "x":
         d = np.array([1.0, 0, 0])
+    elif orient == "minus-x":
+        p0[1:] = 0.0
+        d = np.array([-1.0, 0, 0])
     else:
         d = np.zeros(3)
         d[:dim] = rng.normal(size=dim)
@@ -316,7 +320,7 @@ def run_beam(case: dict, ctx: Ctx, rng) -> None:
             d[:2] = [np.cos(0.6), np.sin(0.6) * (1 if dim == 2 else 0.8)]
             d /= np.linalg.norm(d)
     yAxis = (0, 1, 0)
-    if dim == 3 and orient != "x":
+    if dim == 3 and orient not in ("x", "minus-x"):
         t = rng.normal(size=3)
         t -= (t @ d) * d
         yAxis = tuple(t / np.linalg.norm(t))
